@@ -64,7 +64,34 @@ impl TryFrom<&[AST]> for Context {
             context.functions.insert(func.clone());
         });
 
-        context.into_with_primitives()?.into_with_std_lib()
+        let context = context.into_with_primitives()?.into_with_std_lib()?;
+        context.no_cyclic_inheritance()?;
+        Ok(context)
+    }
+}
+
+impl Context {
+    /// A class may not be its own ancestor: class lookup follows parents without end otherwise.
+    fn no_cyclic_inheritance(&self) -> TypeResult<()> {
+        for class in &self.classes {
+            let (mut todo, mut seen) = (vec![&class.name.name], HashSet::new());
+            while let Some(name) = todo.pop() {
+                let parents = self
+                    .classes
+                    .iter()
+                    .filter(|c| &c.name.name == name)
+                    .flat_map(|c| c.parents.iter());
+                for parent in parents {
+                    if parent.name.variant.name == class.name.name {
+                        let msg = format!("{} inherits from itself", class.name.name);
+                        return Err(vec![TypeErr::new(class.pos, &msg)]);
+                    } else if seen.insert(&parent.name.variant.name) {
+                        todo.push(&parent.name.variant.name);
+                    }
+                }
+            }
+        }
+        Ok(())
     }
 }
 
